@@ -15,6 +15,7 @@ mod zig;
 mod quant;
 mod rej;
 mod zigacc;
+mod ftree;
 
 fn main() {
     util::install_quiet_panic_hook();
@@ -63,6 +64,7 @@ fn main() {
         "quant-drive" => quant::drive(rest),
         "rej-drive" => rej::drive(rest),
         "zigacc-drive" => zigacc::drive(rest),
+        "ftree-drive" => ftree::drive(rest),
         "tree-drive-floats" => tree::drive_floats(rest),
         _ => { eprintln!("unknown subcommand {:?}", cmd); 2 }
     };
